@@ -236,7 +236,8 @@ func AppendConfig(srcBinary, dstBinary string, config []byte) error {
 }
 
 // GetOriginalBinarySize returns the size of the original binary without embedded config.
-// Returns the file size if no embedded config is found.
+// Returns the file size if no embedded config is found, and ErrConfigTooLarge
+// if the trailer claims a config length that does not fit in the file.
 func GetOriginalBinarySize(binaryPath string) (int64, error) {
 	f, err := os.Open(binaryPath)
 	if err != nil {
@@ -267,8 +268,13 @@ func GetOriginalBinarySize(binaryPath string) (int64, error) {
 		return fileSize, nil // No embedded config
 	}
 
-	// Calculate original size
+	// Calculate original size. A length that does not fit in front of the
+	// footer means the trailer is corrupt; without this check the result would
+	// be negative (or wrap around) and callers would allocate with it.
 	configLen := binary.LittleEndian.Uint64(footer[:8])
+	if configLen > uint64(fileSize-FooterSize) {
+		return 0, ErrConfigTooLarge
+	}
 	return fileSize - FooterSize - int64(configLen), nil
 }
 
